@@ -100,6 +100,43 @@ def run(ctx):
             viol.append(dict(replay, kind="capacity", mode="jit", detail=f"compiled solver {rj[0]}ed: {rj[1]}"))
         elif ce.impl_line(c, rj) != ce.impl_line(c, res[i]):
             viol.append(dict(replay, kind="capacity", mode="jit", detail=f"compiled and interpreted runs differ: {ce.impl_line(c, rj)[:150]} vs {ce.impl_line(c, res[i])[:150]}"))
+    # shaving at the largest height (compiled only: probing every variable at every node is too slow under interpretation): a probe
+    # pushes one more level than the decision does, so the stack fills one level earlier; unconstrained variables, every vector is a
+    # solution, the enumeration may only stop early by raising
+    shv = []
+    for n3 in (126, 127, 128):
+        for lead in (0, 1):
+            prob = nv.Prob([(0, 1)] * lead + [(0, 2)] * n3, props=[])
+            shv.append({"op": "solve", "problem": prob.to_json(), "cfg": ce.cfg_json(nv.Cfg(cons=1, domh=3, height=256)), "n": n3 + lead, "limit": 4, "total": 8})
+    for nb in (253, 254, 255, 256):
+        prob = nv.Prob([(0, 1)] * nb, props=[])
+        shv.append({"op": "solve", "problem": prob.to_json(), "cfg": ce.cfg_json(nv.Cfg(cons=1, domh=0, height=256)), "n": nb, "limit": 4, "total": 8})
+    # … and a family whose solutions can be COUNTED: n variables over {0,1,2} of which at least n-1 equal 1 (2n+1 solutions); under
+    # mid_value the first solution sits at the bottom of a two-levels-per-decision dive: a run that returns must return them all
+    for n3 in (120, 126, 127, 128):
+        for cons_ in (0, 1):
+            prob = nv.Prob([(0, 2)] * n3 + [(n3 - 1, n3)], props=[(list(range(n3 + 1)), "count_eq", [1])])
+            shv.append({"op": "solve", "problem": prob.to_json(), "cfg": ce.cfg_json(nv.Cfg(cons=cons_, domh=3, height=256)), "n": n3, "limit": None,
+                        "total": 2 * n3 + 1, "counted": True})
+    ress = ce.run_impl(shv, jit=True, tag="C19s", timeout_per_batch=900, case_timeout=90)
+    anss = nv.Model().ask(ce.model_lines(shv))
+    for c, r, a in zip(shv, ress, anss):
+        report.cov["evaluations"] += 1
+        report.count("outcome_shaving_256", f"{r[0]}:{r[1] if r[0]=='err' else ''}")
+        replay = {k: c[k] for k in ("problem", "cfg", "limit")}
+        if r[0] in ("hang", "crash"):
+            viol.append(dict(replay, kind="capacity", mode="jit", detail=f"shaving at height 256, {c['n']} variables: the solver process {r[0]}ed: {r[1]}"))
+            continue
+        il = ce.impl_line(c, r)
+        if il != a:
+            corr.append(dict(replay, implementation=il[:300], model=a[:300]))
+        if r[0] == "ok" and c.get("counted"):
+            if len({tuple(x) for x in r[1]}) != c["total"] or len(r[1]) != c["total"]:
+                viol.append(dict(replay, kind="capacity", mode="jit", detail=f"height 256, {c['n']} three-valued variables with at least n-1 ones: the enumeration ended without error with {len(r[1])} solutions ({len({tuple(x) for x in r[1]})} distinct) instead of {c['total']}"))
+        elif r[0] == "ok" and (len(r[1]) < min(c["limit"], c["total"]) or len({tuple(x) for x in r[1]}) != len(r[1])):
+            viol.append(dict(replay, kind="capacity", mode="jit", detail=f"shaving at height 256: the enumeration ended without error after {len(r[1])} distinct solutions of at least 4: {r[1][:2]}"))
+        if r[0] == "err" and r[1] == "oob":
+            viol.append(dict(replay, kind="capacity", mode="jit", detail="shaving at height 256: an index error other than the documented stack-overflow report escaped"))
     report.cov["traces_validated_against_impl"] = len(small)
     report.cov["rule"] = ("stack_max_height in {2..8,127,128,255,256,257,300,512} x search depth below, at and beyond the height (chains of n booleans, "
                           "2-way and 3-way branching): the real solver must either raise or return exactly the model's answer; heights the "
